@@ -67,7 +67,7 @@ inline uint64_t seed_env() { const char *s = getenv("VERIF_SEED"); return s ? st
 
 // ---------------------------------------------------------------- faults -----------------------
 // Any crash / uncaught exception / sanitizer death becomes a {"e":"Fault"} line that no spec action accepts.
-inline void (*&pre_fault())() { static void (*f)() = nullptr; return f; }   // e.g. flush buffered events
+inline void (*&pre_fault())(bool) { static void (*f)(bool) = nullptr; return f; }   // e.g. flush buffered events (arg: inside a sanitizer report)
 inline void fault(const char *kind, const char *what) {
     static std::atomic<int> once{0};
     static std::atomic<pthread_t> owner{0};
@@ -76,7 +76,7 @@ inline void fault(const char *kind, const char *what) {
         for (;;) pause();                                                        // another thread is already reporting
     }
     owner = pthread_self();
-    if (pre_fault()) { void (*f)() = pre_fault(); pre_fault() = nullptr; f(); }
+    if (pre_fault()) { void (*f)(bool) = pre_fault(); pre_fault() = nullptr; f(!strcmp(kind, "sanitizer")); }
     Trace &t = T();
     std::string line = std::string("{\"e\":\"Fault\",\"kind\":\"") + kind + "\",\"what\":" + jstr(what ? what : "") + "}\n";
     if (t.f) { fflush(t.f); ssize_t w = write(fileno(t.f), line.data(), line.size()); (void)w; }
